@@ -52,7 +52,10 @@ VIEW_FUNCS = {'asarray', 'atleast_1d', 'atleast_2d', 'reshape', 'ravel',
               'squeeze', 'transpose', 'broadcast_to', 'asanyarray',
               'ascontiguousarray', 'moveaxis', 'swapaxes', 'expand_dims',
               'iter', 'reversed', 'enumerate', 'zip', 'chain', 'islice',
-              'next', 'getattr', 'cast', 'filter', 'nditer'}
+              'next', 'getattr', 'cast', 'filter', 'nditer',
+              # numpy.ma accessors: the underlying data / mask, no copy
+              'getdata', 'getmask', 'require', 'asfortranarray',
+              'atleast_3d', 'real', 'imag'}
 SHALLOW_COPY_FUNCS = {'list', 'tuple', 'set', 'frozenset', 'sorted', 'dict',
                       'OrderedDict', 'copy', 'deque', 'Counter', 'chain'}
 NP_INPLACE = {'put', 'place', 'copyto', 'fill_diagonal', 'putmask',
